@@ -154,6 +154,10 @@ def provenance(body, operand_or_place, bb, idx, through=DEFAULT_THROUGH, depth=4
                         ix = int(f0)
                     elif rv['agg'] == 'closure':
                         ix = None
+                        clo = body.facts.bodies.get(rv.get('closure')) if getattr(body, 'facts', None) is not None else None
+                        caps = clo.j.get('captures', []) if clo is not None else []
+                        if f0 in caps and caps.index(f0) < len(rv['fields']):
+                            ix = caps.index(f0)
                     if ix is not None:
                         roots += provenance(body, rv['fields'][ix], db, dk, through, depth - 1, rest, _seen)
                         done = True
